@@ -1,9 +1,9 @@
 CONSTANT P = 5
 CONSTANT ALPHA = 3
 CONSTANT GEN = 2
-CONSTANT DropKind = "none"
-CONSTANT DropIdx = 0
-CONSTANT Cases <- Cases5
+CONSTANT DropKind = "coset"
+CONSTANT DropIdx = 2
+CONSTANT Cases <- CasesCoset
 CONSTANT Sel = {}
 INIT InitRows
 NEXT NextRows
